@@ -500,9 +500,10 @@ class ExprBuilder(ast.NodeTransformer):
     def visit_UnaryOp(self, node: ast.UnaryOp) -> ast.AST:
         # Desugar negated numeric constants into constants
         match node.op, node.operand:
-            case ast.USub(), ast.Constant(value=float(v) | int(v)) as const:
-                const.value = -v
-                return with_loc(node, const)
+            case ast.USub(), ast.Constant(value=float(v) | int(v)):
+                # Don't mutate the constant in place: the node may be shared, e.g. as
+                # the middle operand of a chained comparison
+                return with_loc(node, ast.Constant(value=-v))
             case _:
                 return self.generic_visit(node)
 
